@@ -341,12 +341,14 @@ def U4(ctx):
     yk = "rt::atomic::FirstSeen::is_seen_before_yield"
     yfn = need_fn(ctx, "U4", yk)
     if yfn is not None:
-        txts = []
-        for b in range(yfn.body.n):
-            for s in yfn.body.blocks[b]["stmts"]:
-                if s["k"] == "=" and s["lhs"]["l"] == 0:
-                    txts.append(canon(yfn.body.expr_of_rvalue(s["rv"])))
-        if any(" Le " in x and "last_yield" in x for x in txts) and any(x == "0" for x in txts):
+        # every value the function can return (through matches, early returns or desugared combinators)
+        srcs = deep_sources(yfn.body, yfn.body.expr_of_local(0))
+        txts = sorted({canon(x)[:120] for x in srcs if x[0] in ("binop", "const")})
+        le = any(x[0] == "binop" and x[1] in ("Le", "Ge") and mentions_field_deep(yfn.body, x, T, "last_yield") and
+                 mentions_field_deep(yfn.body, x, "rt::atomic::FirstSeen", "0") for x in srcs)
+        only_false = all(x[1].get("int") == 0 for x in srcs if x[0] == "const" and x[1].get("ty") == "bool")
+        has_false = any(x[0] == "const" and x[1].get("ty") == "bool" and x[1].get("int") == 0 for x in srcs)
+        if le and has_false and only_false:
             ctx.ok("U4", yk, "first_seen[self] <= last_yield; false without a yield or without having seen the store", [yfn.loc()])
         else:
             ctx.bad("U4", yk, "is_seen_before_yield must compare the thread's own first-seen version with its last yield (%s)" % txts, yfn.loc())
